@@ -46,10 +46,21 @@ func (t fasttime) reached() bool {
 func makeDeadline(d time.Duration) fasttime {
 	// Increase the deadline since the clock we are reading may be
 	// just about to tick forwards.
-	end := fast.current.read() + durationToTicks(d+clockPeriod)
+	current := fast.current.read()
+	end := current + durationToTicks(d+clockPeriod)
 
 	// Start or extend clock if necessary.
-	if end > fast.clockEnd.read() {
+	if end <= fast.clockEnd.read() {
+		// The clock covers the deadline, but another goroutine may have restarted a
+		// stopped clock between our two reads: then "current" was the stale value from
+		// before the restart and the deadline would already lie in the past.
+		if now := fast.current.read(); now != current {
+			end = now + durationToTicks(d+clockPeriod)
+			if end > fast.clockEnd.read() {
+				extendClock(end)
+			}
+		}
+	} else {
 		// If time.Since(last use) > timeout, there's a chance that
 		// fast.current will no longer be updated, which can lead to
 		// incorrect 'end' calculations that can trigger a false timeout
@@ -57,9 +68,10 @@ func makeDeadline(d time.Duration) fasttime {
 		if !fast.running && !fast.start.IsZero() {
 			// update fast.current
 			fast.current.write(durationToTicks(time.Since(fast.start)))
-			// recalculate our end value
-			end = fast.current.read() + durationToTicks(d+clockPeriod)
 		}
+		// recalculate our end value: fast.current may have been refreshed by us or,
+		// since we read it, by another goroutine that restarted the clock
+		end = fast.current.read() + durationToTicks(d+clockPeriod)
 		fast.mu.Unlock()
 		extendClock(end)
 	}
